@@ -16,6 +16,7 @@ def run(ctx):
         "tools/gofacts c01.go: ValidateDiffFloat read statement by statement into Gen/C01.lean (parameter tables, coinbase order, header field order and transformations, version mix as a BitVec 32 expression, difficulty-1 constant, verdict comparison, how ValidateAndAddShare calls it); an unrecognised statement fails the regeneration",
         "Model/Pow.lean interprets those tables; the theorems are about that interpretation and hold for every hash function",
         "correspondence harness harness/validator/verif_c01_test.go: the real ValidateDiffFloat / ValidateDiff in-process vs the model run with the Lean SHA-256 of Base/Sha256.lean (so the Lean SHA-256 is compared with crypto/sha256 on every case), and vs Spec/C01.lean through the monitor",
+        "job capture: the validator harness of C19 (harness/validator/verif_c19_test.go: every announcement with its own difficulty, the error text names the job a share was judged by) is run here too and judged by Spec/C19.lean — which announcement's difficulty / extranonce a share is checked against",
         "modelled, not verified: hex.DecodeString / json.Unmarshal with ignored errors, decode_swap, decode_swap_words, LittleEndian.Uint32, big.Int division and Uint64() as described at the top of Model/Pow.lean (tied by the malformed stream of the harness)",
     ]
     ctx.assumptions += ["hash != 0 and share difficulty < 2^64 (a SHA-256 pre-image would be needed to run the excluded inputs); the guards are explicit hypotheses of the theorems",
@@ -69,6 +70,23 @@ def run(ctx):
         d = diffs[0]
         ctx.tie_failures.append("correspondence broken: model and implementation differ in %d of %d cases; first: %s after %s: impl %r model %r"
                                 % (len(diffs), len(cases), d["header"], L.last_op_before(d["lines"], d["first"])[:120], d["impl"], d["other"]))
+    # 3. "the difficulty that was in force when that job was announced": which announcement a share is checked against.
+    # The validator harness gives every announcement its own difficulty and reads back which one a submit was judged by;
+    # the specification (Spec/C19: the latest unexpired announcement of that job id among the last 30) decides.
+    def classify_capture(d):
+        kind = d["header"].split()[-1] if d["index"] >= 0 else "transcript"
+        op = L.last_op_before(d["lines"], d["first"]).split()
+        opn = op[1] if len(op) > 1 else "?"
+        return ("c01-capture:%s:%s:impl=%s:spec=%s" % (kind, opn, " ".join(d["impl"].split()[1:2]), " ".join(d["other"].split()[1:2])),
+                "after %s the validator answered %r where the job memory specification says %r: the share is not judged by the "
+                "difficulty / extranonce in force when the job it names was (last) announced" % (" ".join(op[1:3]), d["impl"], d["other"]))
+    rc, out = L.run_harness(ctx, exe, "TestVerifC19$", env={"VERIF_N": 150 if ctx.tier == "quick" else 2000, "VERIF_MAXOPS": 40, "VERIF_BSM": 0})
+    capture_cases = 0
+    if rc != 0:
+        ctx.tie_failures.append("validator job-capture run failed (rc=%d): %s" % (rc, out[-300:]))
+    else:
+        L.compare_transcript(ctx, "c19", "c19.impl.txt", classify_capture, exe, "TestVerifC19$")
+        capture_cases = sum(1 for h, _ in L.parse_cases("%s/c19.impl.txt" % ctx.out) if h.endswith("validator"))
     kinds, outs, nops, distinct = {}, {}, 0, set()
     accepted_nonzero = 0
     for h, lines in cases:
@@ -88,6 +106,7 @@ def run(ctx):
         "evaluations": nops, "distinct_nontrivial": len(distinct),
         "rule": "corpus first (the repository's two real shares and the mined shares of corpus/c01_shares.txt, difficulty >= 1: integer boundaries t-1, t, t+1 through ValidateDiff and ValidateDiffFloat, t+0.5, the float just below t+1); seeded jobs (coinbase 28..200 bytes, 0..12 branches, extranonce1 0..8 bytes, extranonce2 2..8 bytes, masks 1fffe000/0/ffffffff/random, with and without version bits, bits inside and outside the mask, 30% with a nonce mined to difficulty 2^-12..2^-20) with job difficulties aimed at the share's own difficulty (nearest float, next float up/down, x(1+-1e-12), floor, floor+1, 0, denormal, huge, negative, NaN/Inf), `same` ops changing only worker name / job id text / out-of-mask bits, 5-parameter vs 6-parameter submits; a malformed stream (odd / non-hex / short / long fields, wrong JSON types, 0..4 and 7 submit parameters). Distinct = distinct op lines; every op is non-trivial (it computes two SHA-256d)",
         "case_kinds": kinds, "answers": outs, "accepted_at_nonzero_difficulty": accepted_nonzero, "traces_validated_against_impl": len(cases),
+        "job_capture_histories": capture_cases,
     })
     ctx.samples += [{"case": h, "lines": [l[:200] for l in lines[:4]]} for h, lines in cases[:3]]
 
@@ -96,6 +115,8 @@ def replay(ctx, path):
     import json
     rp = json.load(open(path))
     ops = [o[2:] if o.startswith("> ") else o for o in rp.get("ops", [])]
+    if ops and ops[0].split()[0] in ("new", "notify"):   # a job-capture history (validator harness)
+        return L.generic_replay(ctx, path, HDIR, "TestVerifC19$", "c19", "c19.impl.txt")
     exe = L.build_harness(ctx, HDIR)
     if not exe or not L.build_driver(ctx):
         print("cannot build harness/driver: %s" % ctx.tie_failures)
